@@ -526,6 +526,7 @@ func (g *gen) commit(st *Step, hints map[string]string) {
 			st.Method = "OPTIONS" // see genRequest: "." cannot be removed
 		}
 	}
+	g.passerbyHeaders(st)
 	g.plan.Steps = append(g.plan.Steps, *st)
 	planHost = "dav.test"
 	if g.plan.Config.Host != "" {
@@ -795,4 +796,47 @@ func GenC01(seed uint64, tier string) *Plan {
 		g.commit(st, nil)
 	}
 	return g.plan
+}
+
+// passerbyHeaders adds, to a few requests, a header that clients and proxies
+// send for reasons of their own and that changes nothing about what the
+// request asks for: the answer must be what it is without it.
+func (g *gen) passerbyHeaders(st *Step) {
+	if st.Method == "" || !g.r.Chance(0.05) {
+		return
+	}
+	has := func(h string) bool {
+		for _, kv := range st.Headers {
+			if strings.EqualFold(kv[0], h) {
+				return true
+			}
+		}
+		return false
+	}
+	switch g.r.Intn(8) {
+	case 0:
+		if st.Method == "PUT" && len(st.Body) > 0 && !has("Expect") {
+			st.set("Expect", "100-continue")
+		}
+	case 1:
+		if !has("Connection") {
+			st.set("Connection", rt.Pick(g.r, []string{"close", "keep-alive"}))
+		}
+	case 2:
+		st.set("Accept-Encoding", rt.Pick(g.r, []string{"gzip", "gzip, deflate, br", "identity"}))
+	case 3:
+		st.set("Translate", "f")
+	case 4:
+		st.set("Cache-Control", rt.Pick(g.r, []string{"no-cache", "max-age=0", "no-store"}))
+		st.set("Pragma", "no-cache")
+	case 5:
+		st.set("X-Forwarded-For", "203.0.113.7")
+		st.set("Via", "1.1 proxy.example")
+	case 6:
+		st.set("Accept", rt.Pick(g.r, []string{"*/*", "text/xml", "application/json;q=0.1"}))
+		st.set("Accept-Language", "de, en;q=0.5")
+	case 7:
+		st.set("User-Agent", "Microsoft-WebDAV-MiniRedir/10.0.19045")
+		st.set("Authorization", "Basic dXNlcjpwdw==")
+	}
 }
